@@ -7,6 +7,7 @@ import TantivyModel.Proofs.AggSpecPV
 import TantivyModel.Proofs.AggRange
 import TantivyModel.Proofs.AggCompTrim
 import TantivyModel.Proofs.AggKeyOrder
+import TantivyModel.Proofs.AggKeyDesc
 /-!
 # C14 — Aggregations equal a direct computation and do not depend on partitioning
 
@@ -265,6 +266,21 @@ theorem C14_terms_key_asc_other_exact_under_truncation (p : TermsP) (sub : Req) 
   have h := terms_keyAsc_other_exact (M := M) p sub ho hsz hmdc (harvest_of_cutFree sub hsub) parts
   unfold mergedTerms at h
   rw [h, finalize_collect_pv]
+
+/-- **Terms ordered by `_key` descending are exact under segment truncation** as well: every segment
+keeps its LAST `segment_size` keys; buckets and `sum_other_doc_count` of any number of truncated
+segments are those of the direct per-value computation (same checked hypotheses). -/
+theorem C14_terms_key_desc_exact_under_truncation (p : TermsP) (sub : Req) (ho : p.order = .keyDesc)
+    (hsz : p.size ≤ p.segSize) (hmdc : p.minDocCount ≤ 1) (hsub : sub.cutFree = true) (parts : List (List Doc)) :
+    (finalize (M := M) (.terms p sub) (mergeFruits (.terms p sub) (parts.map (collectSeg (.terms p sub))))).1
+        = (evalAggPV M (.terms p sub) parts.flatten).1
+      ∧ (finalize (M := M) (.terms p sub) (mergeFruits (.terms p sub) (parts.map (collectSeg (.terms p sub))))).2.1
+        = (evalAggPV M (.terms p sub) parts.flatten).2.1 := by
+  rw [C14_mergeFruits_eq_fold]
+  have h := terms_keyDesc_exact (M := M) p sub ho hsz hmdc (harvest_of_cutFree sub hsub) parts
+  unfold mergedTerms at h
+  rw [h.1, h.2, finalize_collect_pv]
+  exact ⟨rfl, rfl⟩
 
 /-- the same bounds for EVERY merge schedule (any order, any grouping) of the truncated segment
 fruits, not only for the collector's own fold -/
@@ -626,6 +642,11 @@ example : (finalize (M := Int) (.terms ⟨0, Option.none, 1, 1, 1, .keyAsc⟩ .n
     (mergeFruits (.terms ⟨0, Option.none, 1, 1, 1, .keyAsc⟩ .none)
       ([[[(0, [3])], [(0, [1])]], [[(0, [2])], [(0, [1])]]].map
         (collectSeg (M := Int) (.terms ⟨0, Option.none, 1, 1, 1, .keyAsc⟩ .none))))).2 = (2, 2) := by decide +kernel
+/-- descending: keys {1,3} and {1,2}, each segment keeps its largest key; the shown bucket is key 3 (count 1), 3 others -/
+example : finalize (M := Int) (.terms ⟨0, Option.none, 1, 1, 1, .keyDesc⟩ .none)
+    (mergeFruits (.terms ⟨0, Option.none, 1, 1, 1, .keyDesc⟩ .none)
+      ([[[(0, [3])], [(0, [1])]], [[(0, [2])], [(0, [1])]]].map
+        (collectSeg (M := Int) (.terms ⟨0, Option.none, 1, 1, 1, .keyDesc⟩ .none)))) = ([(3, 1, ())], 3, 2) := by decide +kernel
 example : [0, 10, 20].Pairwise (fun a b : Int => a < b) := by decide
 example : ([1, 2, 3] : List Int).Nodup ∧ ∀ d ∈ exTDocs, ∀ k ∈ termKeys ⟨0, Option.none, 2, 2, 1, .countDesc⟩ d, k ∈ [1, 2, 3] := by
   decide
